@@ -55,3 +55,11 @@ fix_mpfzero_good_order (mpf_ptr r, mpf_srcptr u)
       EXP (x) = 1;
     }
 }
+
+/* negative: the zero is only an intermediate state - a callee that receives r as destination sets both fields afterwards */
+void
+fix_mpfzero_good_callee (mpf_ptr r, mpf_srcptr u)
+{
+  SIZ (r) = 0;
+  mpf_add_ui (r, u, 1);
+}
